@@ -1,11 +1,44 @@
-import TucanProofs.Lemmas.Sort
-import TucanModel.Canon
-/-! # C16 — property theorems (see DESIGN.md §5) -/
+import TucanProofs.Lemmas.Permute
+import TucanProofs.Examples
+/-!
+# C16 — the permutation helper returns a faithful relabelled copy
+
+Model: `permuteMolecule g shuffles` (`permute_molecule`), where `shuffles` is the stream of results of
+`random.shuffle` after `random.seed(seed)` (recorded from the real run by the harness).  The result is a
+*function* of the argument and of that stream, which is what "same result for the same seed" means.
+The argument is a value, so "leaves its argument unchanged" is what the harness checks on the real code.
+-/
 namespace Tucan
 
-/-- The neighbour part of an attribute sequence does not depend on the order in which the neighbours
-are listed. -/
-theorem C16_neighbour_keys_listing_independent {l₁ l₂ : List Key} (h : l₁.Perm l₂) :
-    sortKDesc l₁ = sortKDesc l₂ := sortKDesc_perm_eq h
+/-- The helper's result is the argument renamed by a bijection of its label set: same label set, nodes
+listed in label order, every atom attribute and every bond record carried along (`Relabel`). -/
+theorem C16_faithful (g : Graph) (hw : g.WF) (hs : g.Simple) (shuffles : List (List Nat))
+    (hall : ∀ s ∈ shuffles, s.Perm g.labels) (r : Graph) (h : permuteMolecule g shuffles = .ok r) :
+    ∃ π : Nat → Nat, Relabel π g r ∧ r.labels = sortN g.labels ∧ r.WF ∧ r.Simple := by
+  obtain ⟨s, hs', rfl⟩ := permuteMolecule_mem g shuffles r h
+  obtain ⟨rel, hl, hw', hsimp⟩ := permuteOnce_spec g hw hs s (hall s hs')
+  exact ⟨_, rel, hl, hw', hsimp⟩
+
+/-- For a molecule with at least two bonds that is not a complete graph, the returned edge set differs
+from the original one. -/
+theorem C16_edges_differ (g : Graph) (shuffles : List (List Nat)) (r : Graph)
+    (henf : (g.numberOfEdges > 1 && 2 * g.numberOfEdges != g.numberOfNodes * (g.numberOfNodes - 1)) = true)
+    (h : permuteMolecule g shuffles = .ok r) : sameEdgeSet g r = false :=
+  permuteMolecule_enforced g shuffles r henf h
+
+/-- the label set is unchanged -/
+theorem C16_same_label_set (g : Graph) (hw : g.WF) (hs : g.Simple) (shuffles : List (List Nat))
+    (hall : ∀ s ∈ shuffles, s.Perm g.labels) (r : Graph) (h : permuteMolecule g shuffles = .ok r) :
+    r.labels.Perm g.labels := by
+  obtain ⟨π, _, hl, _, _⟩ := C16_faithful g hw hs shuffles hall r h
+  rw [hl]; exact List.mergeSort_perm _ _
+
+/-- non-vacuity: the hypotheses are met by a concrete molecule and a concrete shuffle -/
+example : exGraph.WF ∧ exGraph.Simple ∧ (∀ s ∈ [[1, 2, 0]], s.Perm exGraph.labels) := by
+  refine ⟨exGraph_wf, exGraph_simple, ?_⟩
+  intro s hs
+  simp only [List.mem_singleton] at hs
+  subst hs
+  decide
 
 end Tucan
